@@ -226,6 +226,7 @@ impl<'r> Gen<'r> {
             if self.cfg.min_max_bounds { 1 } else { 0 },   // 0..MAX
             if self.cfg.min_max_bounds { 1 } else { 0 },   // MIN..ub
             if self.cfg.min_max_bounds { 1 } else { 0 },   // MIN..MAX
+            if self.cfg.min_max_bounds { 1 } else { 0 },   // open-ended and extensible
         ]);
         let mut pair = |g: &mut Gen| -> (i128, i128) {
             loop {
@@ -258,7 +259,16 @@ impl<'r> Gen<'r> {
                 let (_, b) = pair(self);
                 Some(IntC { lo: Bound::Min, hi: Bound::Lit(b), ext: false })
             }
-            _ => Some(IntC { lo: Bound::Min, hi: Bound::Max, ext: false }),
+            6 => Some(IntC { lo: Bound::Min, hi: Bound::Max, ext: false }),
+            _ => {
+                let (a, b) = pair(self);
+                Some(match self.rng.below(4) {
+                    0 => IntC { lo: Bound::Lit(0), hi: Bound::Max, ext: true },
+                    1 => IntC { lo: Bound::Min, hi: Bound::Max, ext: true },
+                    2 => IntC { lo: Bound::Lit(a), hi: Bound::Max, ext: true },
+                    _ => IntC { lo: Bound::Min, hi: Bound::Lit(b), ext: true },
+                })
+            }
         }
     }
 
